@@ -213,6 +213,28 @@ def _subst_closure_params(it, cenv):
     return rw(it)
 
 
+def _nnf(v, pos):
+    """Negation normal form of a boolean value tree over !, &&, || and boolean literals (other nodes are atoms)."""
+    u = vt.unvar(v)
+    if isinstance(u, dict) and u.get('k') == 'paren':
+        return _nnf(u.get('v'), pos)
+    if isinstance(u, dict) and u.get('k') == 'lit' and isinstance(u.get('v'), bool):
+        return dict(u, v=(u['v'] if pos else not u['v']))
+    if isinstance(u, dict) and u.get('k') == 'op' and u.get('op') == '!' and len(u.get('args', [])) == 1:
+        return _nnf(u['args'][0], not pos)
+    if isinstance(u, dict) and u.get('k') == 'op' and u.get('op') in ('&&', '||') and len(u.get('args', [])) == 2:
+        op = u['op'] if pos else ('||' if u['op'] == '&&' else '&&')
+        a, b = _nnf(u['args'][0], pos), _nnf(u['args'][1], pos)
+        for x, y in ((a, b), (b, a)):
+            xv = vt.unvar(x)
+            if isinstance(xv, dict) and xv.get('k') == 'lit' and isinstance(xv.get('v'), bool):
+                if op == '&&':
+                    return y if xv['v'] else xv
+                return xv if xv['v'] else y
+        return {'k': 'op', 'op': op, 'args': [a, b], 'ty': 'bool'}
+    return v if pos else {'k': 'op', 'op': '!', 'args': [v], 'ty': 'bool'}
+
+
 def _result(G):
     """Result value of a function: its tail, or — with early returns — the alternatives `return`ed values + tail.  The guard
     frames of each early return are kept next to the alternatives (`alt_guards`), so that a specialisation of the result
@@ -221,6 +243,13 @@ def _result(G):
     tail = G.get('tail')
     if not rets:
         return tail
+    if str(G.get('ret') or '').strip() == 'bool' and tail is not None:
+        # a predicate with early `return true/false`: one boolean formula (`if c { return false } rest` ≡ ¬c ∧ rest), with the
+        # negations pushed inwards so that `if !a || !b { return false } true` reads a ∧ b
+        from .parser_rules import bool_result
+        formula, _why = bool_result(G)
+        if formula is not None:
+            return _nnf(formula, True)
     return {'k': 'alt', 'alts': [r['v'] for r in rets] + ([tail] if tail is not None else []),
             'alt_guards': [r.get('guard', []) for r in rets] + ([[]] if tail is not None else []),
             'ty': (tail or {}).get('ty') if isinstance(tail, dict) else None}
